@@ -260,7 +260,9 @@ impl Arbiter {
 //@extract file=actix-rt/src/arbiter.rs item="impl Arbiter / fn with_tokio_rt" ret=r props=C09,C10 name=arbiter::with_tokio_rt_outer opaque_move_closures intended_panics tls_state="CURRENT:current" tls_calls="System::current" trace_calls="ready_rx.recv" sig_replace="F: FnOnce() -> tokio::runtime::Runtime + Send + 'static,=>F: FnOnce() -> TokioRuntime,;;-> (r: Arbiter)=>-> (r: ArbiterOwner)"
 //@replace pattern="std::sync::mpsc::channel::<()>()" rule=R15
 std::sync::mpsc::channel()
-//@replace pattern="Arbiter { tx, thread_handle }" rule=R15
+//@replace pattern="Arbiter { tx, thread_handle }" rule=R15 optional
+ArbiterOwner { tx, thread_handle }
+//@replace pattern="Self { tx, thread_handle }" rule=R15 optional
 ArbiterOwner { tx, thread_handle }
 //@spec
     requires old(r25_tls).current.v is Some,
